@@ -41,6 +41,13 @@ section Kernels
 variable {α : Type} [Add α] [Mul α] [Sub α] [Neg α] [OfNat α 0] [OfNat α 1]
   [LT α] [DecidableLT α]
 
+/-- round 5 — the `N × N` block a symmetric fill with body `f` leaves behind, computed cell by
+cell (`fillSym_block`: it *is* `toLists N (fillSym N f M)`).  Reading the block out of the
+closure `fillSym N f M` costs `O(N⁴)`; this costs `O(N²)` and lets the driver answer for grids
+beyond the range of 8-bit counters. -/
+def symBlock {β : Type} (N : Nat) (f : Nat → Nat → β) : List (List β) :=
+  (List.range N).map fun a => (List.range N).map fun b => f (max a b) (min a b)
+
 /-- `sin_lat[i]*sin_lat[j] + cos_lat[i]*cos_lat[j] * (sin_lon[i]*sin_lon[j] + cos_lon[i]*cos_lon[j])` -/
 def cosExpr (sl cl sn cn : Nat → α) (i j : Nat) : α :=
   sl i * sl j + cl i * cl j * (sn i * sn j + cn i * cn j)
